@@ -216,6 +216,7 @@ type Exec struct {
 	nfeas int
 	nextCalls int
 	callers   []*Frame // frames waiting for an inlined callee, outermost first
+	noPanicCond string // entry condition under which panics must be unreachable ("" = always)
 }
 
 func (ex *Exec) newCell(t types.Type, name string) *Cell {
@@ -431,6 +432,10 @@ func (ex *Exec) addObl(kind, label string, props []string, st *State, goal strin
 	var b strings.Builder
 	for _, a := range st.pc {
 		b.WriteString("(assert " + a + ")\n")
+	}
+	if kind == "safe" && ex.noPanicCond != "" {
+		// nopanic_if: only entry states satisfying the condition must be panic-free
+		b.WriteString("(assert " + ex.noPanicCond + ")\n")
 	}
 	b.WriteString("(assert " + not(goal) + ")\n")
 	o := &Obligation{Name: name, Func: ex.fn.String(), Kind: kind, Props: props, Query: b.String(), Where: where, Clause: clause, Inputs: ex.inputs}
